@@ -198,19 +198,15 @@ class FileComparison:
     ) -> TestSuite:
         self._set_mesh_tolerances(res_fields)
         self._set_mesh_tolerances(ref_fields)
-        if self._opts.disable_mesh_reordering:
-            suite = self._run_field_data_comparison(res_fields, ref_fields)
-            if suite.domain_equality_check:
-                return self._to_test_suite(suite)
-            msg = "Non-reordered meshes have compared unequal"
-            self._logger.log(f"{msg}\n")
-            return _make_test_suite([], TestStatus.failed, shortlog=msg)
-
         suite = self._run_mesh_fields_comparison(res_fields, ref_fields)
         if suite.domain_equality_check:
             return self._to_test_suite(suite)
 
-        msg = "Fields defined on different meshes"
+        msg = (
+            "Non-reordered meshes have compared unequal"
+            if self._opts.disable_mesh_reordering
+            else "Fields defined on different meshes"
+        )
         self._logger.log(f"{msg}\n")
         return _make_test_suite([], TestStatus.failed, shortlog=msg)
 
